@@ -90,24 +90,26 @@ class Callback(T):
     `returns` a type for the result (default None); `raises` exception classes
     the ghost effect may raise into the calling code."""
 
-    def __init__(self, name, effect=None, returns=None, raises=(), is_async=False):
+    def __init__(self, name, effect=None, returns=None, raises=(), is_async=False, with_self=False):
         self.name = name
         self.effect = effect
         self.returns = returns
         self.raises = tuple(raises)
         self.is_async = is_async
+        self.with_self = with_self  # as a model *method*: the effect is called as effect(ghost, receiver, *args)
 
 
 class ListOf(T):
     """list with symbolic spine of elements of scalar type t."""
 
-    def __init__(self, t, flavor='list'):
+    def __init__(self, t, flavor='list', maxlen=None):
         self.t = t
         self.flavor = flavor
+        self.maxlen = maxlen  # collections.deque(maxlen=n): len <= n is a type invariant, append on a full deque drops the left end
 
 
-def DequeOf(t):
-    return ListOf(t, 'deque')
+def DequeOf(t, maxlen=None):
+    return ListOf(t, 'deque', maxlen)
 
 
 class TupleOf(T):
@@ -118,8 +120,8 @@ class TupleOf(T):
 class ConcList(T):
     """list with a concrete spine of n fresh elements of type t."""
 
-    def __init__(self, t, n, flavor='list'):
-        self.t, self.n, self.flavor = t, n, flavor
+    def __init__(self, t, n, flavor='list', maxlen=None):
+        self.t, self.n, self.flavor, self.maxlen = t, n, flavor, maxlen
 
 
 class EmptyDict(T):
@@ -133,6 +135,13 @@ class MapOf(T):
     def __init__(self, elem, default_factory=False):
         self.elem = elem
         self.default_factory = default_factory
+
+
+class ExtT(T):
+    """Extension point: a type descriptor defined outside the core; `fresh(cfg, path, hint)` builds the value."""
+
+    def fresh(self, cfg, path, hint):
+        raise NotImplementedError
 
 
 class Event(T):
@@ -191,6 +200,7 @@ class Lemma:
         self.ghost = kw.pop('ghost', {})
         self.requires = kw.pop('requires', None)
         self.ensures = kw.pop('ensures', None)
+        self.ensures_names = kw.pop('ensures_names', None)
         self.invariants = kw.pop('invariants', {})
         self.decreases = kw.pop('decreases', {})
         self.loop_locals = kw.pop('loop_locals', {})
